@@ -50,9 +50,9 @@ def _check_main(run, P):
              "that set", minimum=4)
     run.rule("C17.nomatch", "the first record is taken only after the emptiness test "
              "that raises ValueError", minimum=1)
-    _map_call(run, P)
-    _identity(run, P)
-    _match(run, P)
+    run.do(_map_call, run, P)
+    run.do(_identity, run, P)
+    run.do(_match, run, P)
 
 
 def _map_call(run, P):
